@@ -123,7 +123,7 @@ def showDrain (l : Line) (o : Spec.C08.Obs) (ops implEnd implRun : String) (fire
 "payload":{"i":<i>,"pad":"<padding>"}}`; with CRLF line ends the `\r` is part of what the scanner has to buffer) -/
 def grpcSizes (l : Line) : List Nat :=
   (List.range l.fileN).map fun i =>
-    55 + 3 * (toString i).length + l.pad + (if i + 1 = l.bigat then l.big else 0) + (if l.eol = 2 then 1 else 0)
+    56 + 3 * (toString i).length + l.pad + (if i + 1 = l.bigat then l.big else 0) + (if l.eol = 2 then 1 else 0)
 
 /-- a grpc/json cell one of whose lines does not fit the scanner of the first pass: not a well-formed file for that
 configuration (`maxammosize`: "maximum number of byte in an ammo") -/
